@@ -1,10 +1,17 @@
 package g8sig
 
 import (
+	"bytes"
+	"crypto/sha1" //nolint:gosec
+	"crypto/sha256"
+	"encoding/hex"
 	"fmt"
 	"math/rand/v2"
+	"strconv"
+	"strings"
 
 	"github.com/aperturerobotics/bifrost/hash"
+	"github.com/zeebo/blake3"
 	"github.com/aperturerobotics/bifrost/peer"
 	signaling_rpc "github.com/aperturerobotics/bifrost/signaling/rpc"
 	"verifharness/keys"
@@ -24,6 +31,168 @@ func Honest(from *keys.Identity, data string, seqno uint64) *signaling_rpc.Sessi
 		panic(err)
 	}
 	return m
+}
+
+// HonestHT builds the message `from` would submit with payload data, signed
+// over the digest of hash type ht (a message A signed under the signaling
+// context is A's message whatever supported hash type A's signer picked).
+func HonestHT(from *keys.Identity, data []byte, seqno uint64, ht hash.HashType) *signaling_rpc.SessionMsg {
+	m, err := signaling_rpc.NewSessionMsg(from.Priv, ht, data, seqno)
+	if err != nil {
+		panic(err)
+	}
+	return m
+}
+
+// PadPayload returns a payload that starts with the unique text data and is
+// exactly n bytes long (n <= len(data): data unchanged). The filler depends on
+// data only, so equal texts give equal payloads.
+func PadPayload(data string, n int) []byte {
+	out := []byte(data)
+	if n <= len(out) {
+		return out
+	}
+	out = append(out, '~')
+	for i := 0; len(out) < n; i++ {
+		out = append(out, byte('a'+(i*7+len(data))%26))
+	}
+	return out
+}
+
+// refDigest is the harness' own digest function (standard library / blake3
+// primitive), independent of bifrost's hash package.
+func refDigest(ht hash.HashType, data []byte) []byte {
+	switch ht {
+	case hash.HashType_HashType_SHA256:
+		d := sha256.Sum256(data)
+		return d[:]
+	case hash.HashType_HashType_SHA1:
+		d := sha1.Sum(data) //nolint:gosec
+		return d[:]
+	default:
+		d := blake3.Sum256(data)
+		return d[:]
+	}
+}
+
+// refSignBody is the documented body covered by a signature (peer/signature.go):
+// context, decimal hash type and digest joined by " - SIGN - ".
+func refSignBody(ctx string, ht hash.HashType, digest []byte) []byte {
+	return bytes.Join([][]byte{[]byte(ctx), []byte(strconv.Itoa(int(ht))), digest}, []byte(" - SIGN - "))
+}
+
+// StructKinds lists the STRUCTURAL payload substitutions: the forged payload is
+// a value computed from the payload (and hash type) of a message A really
+// signed - its digest under each hash type, the documented sign body, the
+// digest of the sign body, the payload cut or padded to the digest length, the
+// payload joined with its digest, prefixes of digest length ... - while A's
+// sender id and signature bytes are kept. A verifier whose signed body does not
+// bind the payload injectively (skipped / double hashing, length-dependent
+// paths, padding, truncation) accepts one of them.
+var StructKinds = []string{
+	"blake3-of-data", "sha256-of-data", "sha1-of-data", "own-digest-of-data", "double-digest",
+	"sign-body", "digest-of-sign-body", "sign-body-tail",
+	"cut-to-digest-len", "zero-pad-to-digest-len", "zero-pad-to-block", "strip-trailing",
+	"data-plus-digest", "digest-plus-data", "digest-prefix", "cut-to-20", "cut-to-32", "cut-to-64",
+	"hex-digest", "marshalled-digest", "own-digest-other-hash-type", "other-digest-other-hash-type",
+}
+
+// StructData computes the substituted payload of kind for a signed message
+// with payload data and signature hash type ht. newHT is the hash type to put
+// into the forged signature (== ht unless the kind changes it).
+func StructData(kind string, data []byte, ht hash.HashType, rng *rand.Rand) (out []byte, newHT hash.HashType) {
+	newHT = ht
+	hl := len(refDigest(ht, nil))
+	others := []hash.HashType{}
+	for _, o := range []hash.HashType{hash.HashType_HashType_SHA256, hash.HashType_HashType_SHA1, hash.HashType_HashType_BLAKE3} {
+		if o != ht {
+			others = append(others, o)
+		}
+	}
+	cut := func(n int) []byte {
+		if len(data) > n {
+			return append([]byte(nil), data[:n]...)
+		}
+		// nothing to cut: extend to n+1 instead (still a computed neighbour)
+		return append(append([]byte(nil), data...), make([]byte, n+1-len(data))...)
+	}
+	switch kind {
+	case "blake3-of-data":
+		out = refDigest(hash.HashType_HashType_BLAKE3, data)
+	case "sha256-of-data":
+		out = refDigest(hash.HashType_HashType_SHA256, data)
+	case "sha1-of-data":
+		out = refDigest(hash.HashType_HashType_SHA1, data)
+	case "own-digest-of-data":
+		out = refDigest(ht, data)
+	case "double-digest":
+		out = refDigest(ht, refDigest(ht, data))
+	case "sign-body":
+		out = refSignBody(SignalingContext, ht, refDigest(ht, data))
+	case "digest-of-sign-body":
+		out = refDigest(ht, refSignBody(SignalingContext, ht, refDigest(ht, data)))
+	case "sign-body-tail":
+		out = append([]byte(" - SIGN - "), refDigest(ht, data)...)
+	case "cut-to-digest-len":
+		out = cut(hl)
+	case "zero-pad-to-digest-len":
+		n := hl
+		for n <= len(data) {
+			n += hl
+		}
+		out = append(append([]byte(nil), data...), make([]byte, n-len(data))...)
+	case "zero-pad-to-block":
+		n := 64
+		for n <= len(data) {
+			n += 64
+		}
+		out = append(append([]byte(nil), data...), make([]byte, n-len(data))...)
+	case "strip-trailing":
+		out = bytes.TrimRight(data, "~abcdefghijklmnopqrstuvwxyz0123456789")
+		if len(out) == len(data) || len(out) == 0 {
+			out = cut(len(data) - 1)
+		}
+	case "data-plus-digest":
+		out = append(append([]byte(nil), data...), refDigest(ht, data)...)
+	case "digest-plus-data":
+		out = append(refDigest(ht, data), data...)
+	case "digest-prefix":
+		d := refDigest(ht, data)
+		out = d[:[]int{8, 16, 20, hl - 1}[rng.IntN(4)]]
+	case "cut-to-20":
+		out = cut(20)
+	case "cut-to-32":
+		out = cut(32)
+	case "cut-to-64":
+		out = cut(64)
+	case "hex-digest":
+		out = []byte(hex.EncodeToString(refDigest(ht, data)))
+	case "marshalled-digest":
+		// protobuf encoding of hash.Hash{hash_type, hash}: field 1 varint, field 2 bytes
+		d := refDigest(ht, data)
+		out = append([]byte{0x08, byte(ht), 0x12, byte(len(d))}, d...)
+	case "own-digest-other-hash-type":
+		out = refDigest(ht, data)
+		newHT = others[rng.IntN(len(others))]
+	case "other-digest-other-hash-type":
+		newHT = others[rng.IntN(len(others))]
+		out = refDigest(newHT, data)
+	default:
+		panic(fmt.Sprintf("unknown structural kind %q", kind))
+	}
+	return out, newHT
+}
+
+// LenClass names the relation of a payload length to the digest length of ht.
+func LenClass(n int, ht hash.HashType) string {
+	hl := len(refDigest(ht, nil))
+	switch {
+	case n < hl:
+		return "shorter-than-digest"
+	case n == hl:
+		return "digest-length"
+	}
+	return "longer-than-digest"
 }
 
 // signedUnder builds a SessionMsg whose body is signed by signer under ctx.
@@ -60,6 +229,12 @@ func flipBit(b []byte, rng *rand.Rand) []byte {
 // data is a unique payload (never used for an honest delivery).
 func Forge(kind string, a, b, c *keys.Identity, data string, seqno uint64, rng *rand.Rand) *signaling_rpc.SessionMsg {
 	base := Honest(a, data, seqno)
+	if strings.HasPrefix(kind, "st:") {
+		// A's genuine signature over a payload that is never delivered, with the
+		// payload replaced by a value computed from it
+		base.SignedMsg.Data, base.SignedMsg.Signature.HashType = StructData(kind[3:], base.SignedMsg.Data, base.SignedMsg.Signature.HashType, rng)
+		return base
+	}
 	switch kind {
 	case "flip-data":
 		base.SignedMsg.Data = flipBit(base.SignedMsg.Data, rng)
@@ -151,6 +326,15 @@ var DeriveKinds = []string{
 	"sig-data-reattributed-C", "sig-data-reattributed-self", "sig-extended", "sig-new-data-nil-hash",
 }
 
+// StructDeriveKinds are the derive kinds "st:<k>" for every structural substitution.
+var StructDeriveKinds = func() []string {
+	var out []string
+	for _, k := range StructKinds {
+		out = append(out, "st:"+k)
+	}
+	return out
+}()
+
 // Derive builds a history-dependent forgery of kind from the accepted honest
 // message h (sender A) and a second accepted honest message h2 of A (h2 may
 // equal h when the history holds only one). fresh is a payload that was never
@@ -159,6 +343,10 @@ func Derive(kind string, h, h2 *signaling_rpc.SessionMsg, a, b, c *keys.Identity
 	m := h.CloneVT()
 	m.Seqno = seqno
 	sm := m.SignedMsg
+	if strings.HasPrefix(kind, "st:") {
+		sm.Data, sm.Signature.HashType = StructData(kind[3:], sm.Data, sm.Signature.GetHashType(), rng)
+		return m
+	}
 	switch kind {
 	case "sig-new-data":
 		sm.Data = []byte(fresh)
